@@ -1,13 +1,13 @@
-\* C08 mc (Reuse): exhaustive BFS, two components (one derived quantity, one reaction), tiny grammar; one function used
-\* by two components with permuted arguments occurs; theorems of the specification
+\* C08 reachability of the Reuse shape: NoReuse must be VIOLATED (TLC exhibits a finished, well-formed model in which
+\* a derived quantity and a reaction share one function with different argument lists); the theorems hold on the way
 CONSTANTS
-    MaxVars = 2
+    MaxVars = 1
     MaxDer = 1
     MaxRxn = 1
     MaxIap = 0
     MaxIav = 0
     MaxComps = 2
-    NumLits = {2}
+    NumLits = {}
     Half = FALSE
     UnOn = {}
     BinOn = {"sub"}
@@ -27,7 +27,6 @@ CONSTANTS
 INIT Init
 NEXT Next
 INVARIANT AlwaysWellFormed
-INVARIANT PredicatesClosed
 INVARIANT RenameInvariant
-INVARIANT UntouchedZero
+INVARIANT NoReuse
 CHECK_DEADLOCK FALSE
